@@ -194,7 +194,12 @@ pub fn one(ctx: &mut Ctx, c: &Case, marks: bool) -> bool {
     } else {
         out_text.clone()
     };
-    ctx.op(&line, &ans);
+    if run.rec.work <= 1500 {
+        ctx.op(&line, &ans);
+    } else {
+        // still checked against the reference evaluator below
+        ctx.count("model-skipped:too-many-cell-writes");
+    }
     let nontrivial = run.rec.nodes_visited >= 4;
     ctx.case(if nontrivial { Some(&line) } else { None });
     for k in &run.rec.kinds {
